@@ -110,7 +110,7 @@ macro_rules! a1_mul {
             let p = c as $D + d as $D + (a as $D) * (b as $D); let e = a as u128 * b as u128 + c as u128 + d as u128;
             kani::cover!(a == <$T>::MAX && b == <$T>::MAX && c == <$T>::MAX && d == <$T>::MAX, "extreme");
             assert_eq!(p as u128, e); assert_eq!((p as $T) as u128 + (((p >> $W) as $T) as u128) * (1u128 << $W), e); }
-        /// double-width by single division as used by `div_rem_wide` (`high < rhs`): quotient fits a digit.
+        // double-width by single division as used by `div_rem_wide` (`high < rhs`): quotient fits a digit.
         $( #[kani::proof]
         fn $divwide() { let lo: $T = kani::any(); let hi: $T = kani::any(); let d: $T = kani::any(); kani::assume(hi < d);
             let n = ((hi as $D) << $W) | lo as $D; let q = n / d as $D; let r = n % d as $D;
